@@ -96,41 +96,57 @@ def run(chk, facts_dir, tier):
     sb = prog.body(CB + "should_allow_request")
     chk.analysed(sb.path)
     ev = Ev(prog, sb)
-    ops = atomic_ops(prog, sb, ev)
-    probes = [(bi, t) for (bi, t, k, f) in ops if k == "fetch_add" and f == "half_open_call_count"]
-    half = calls(sb, CB + "transition_to_half_open")
-    # blocks that set the return value to a non-constant-false value after transition_to_half_open or in the HalfOpen arm
-    # every path from transition_to_half_open to return must pass a probe fetch_add
-    rets = sb.return_blocks()
+    # helpers: private methods of the breaker that should_allow_request calls and that touch the probe counter
+    helpers = {}
+    for bi, t in sb.calls():
+        c = sb.callee(t) or ""
+        if c.startswith(CB) and c in prog.bodies and not c.endswith("transition_to_half_open") and not c.endswith("current_state"):
+            hb_ = prog.bodies[c]
+            hev = Ev(prog, hb_)
+            if any(k == "fetch_add" and f == "half_open_call_count" for (_, _, k, f) in atomic_ops(prog, hb_, hev)):
+                helpers[c] = hb_
+    scope = [sb] + list(helpers.values())
+    # (a) every comparison with half_open_max_calls is made on the fetch_add's own result, with `<`
+    n_cmp = 0
     ok3 = True
+    for b in scope:
+        chk.analysed(b.path)
+        e2 = Ev(prog, b)
+        for c in comparisons(prog, b, e2):
+            a_, b2, op = c["a"], c["b"], c["op"]
+            if has_field(b2, "half_open_max_calls") and not has_field(a_, "half_open_max_calls"):
+                cnt = a_
+            elif has_field(a_, "half_open_max_calls") and not has_field(b2, "half_open_max_calls"):
+                cnt, op = b2, SWAP[op]
+            else:
+                continue
+            n_cmp += 1
+            from_add = any(isinstance(x, tuple) and x and x[0] == "call" and x[1].endswith("::fetch_add") and has_field(x, "half_open_call_count") for x in walk(cnt))
+            from_load = any(isinstance(x, tuple) and x and x[0] == "call" and x[1].endswith("::load") and has_field(x, "half_open_call_count") for x in walk(cnt))
+            if from_add and op == "Lt":
+                chk.ok("R26.3", "probe admitted iff the fetch_add's previous value < half_open_max_calls", b.where(c["line"]))
+            elif from_load and not from_add:
+                ok3 = False
+                chk.fail("R26.3", b.path, "check-then-act", "the probe budget is tested on a separate load of half_open_call_count and incremented afterwards: two threads can both pass the "
+                         "test before either increments, so more than half_open_max_calls probes are admitted in one half-open episode", b, c["line"])
+            else:
+                ok3 = False
+                chk.fail("R26.3", b.path, "probe-bound", "probes are admitted under `count %s max` (count = %s) instead of `fetch_add(1) < max`" % (op, show(cnt)[:50]), b, c["line"])
+    # (b) every path from transition_to_half_open (and the HalfOpen arm) to a return passes a counting site
+    probes = [bi for (bi, t, k, f) in atomic_ops(prog, sb, ev) if k == "fetch_add" and f == "half_open_call_count"]
+    probes += [bi for bi, t in sb.calls() if (sb.callee(t) or "") in helpers]
+    half = calls(sb, CB + "transition_to_half_open")
+    rets = sb.return_blocks()
     for hb, ht in half:
-        r = sb.reach_after([hb], avoid=frozenset(p[0] for p in probes))
+        r = sb.reach_after([hb], avoid=frozenset(probes))
         if any(x in r for x in rets):
             ok3 = False
             chk.fail("R26.3", sb.path, "uncounted-transition-probe", "the request that moves the breaker from open to half-open is admitted without being counted: "
                      "half_open_max_calls + 1 probes are admitted per episode", sb, ht["line"])
-    # the HalfOpen arm: discriminant switch on current_state(): variant HalfOpen
-    n_cmp = 0
-    for c in comparisons(prog, sb, ev):
-        a, b2, op = c["a"], c["b"], c["op"]
-        pa = any(isinstance(x, tuple) and x and x[0] == "call" and x[1].endswith("::fetch_add") and has_field(x, "half_open_call_count") for x in walk(a))
-        pb = any(isinstance(x, tuple) and x and x[0] == "call" and x[1].endswith("::fetch_add") and has_field(x, "half_open_call_count") for x in walk(b2))
-        if pa and has_field(b2, "half_open_max_calls"):
-            pass
-        elif pb and has_field(a, "half_open_max_calls"):
-            op = SWAP[op]
-        else:
-            continue
-        n_cmp += 1
-        if op == "Lt":
-            chk.ok("R26.3", "probe admitted iff previous count < half_open_max_calls", sb.where(c["line"]))
-        else:
-            ok3 = False
-            chk.fail("R26.3", sb.path, "probe-bound", "probes are admitted under `count %s max` instead of `previous count < max`" % op, sb, c["line"])
-    if len(probes) >= 2 and n_cmp >= 2 and ok3:
-        chk.ok("R26.3", "both admission sites (transition and half-open arm) count the probe (%d fetch_add sites)" % len(probes), sb.where())
+    if len(probes) >= 2 and n_cmp >= 1 and ok3:
+        chk.ok("R26.3", "both admission sites (transition and half-open arm) count the probe (%d counting sites, %d bound checks)" % (len(probes), n_cmp), sb.where())
     elif ok3:
-        chk.fail("R26.3", sb.path, "probe-sites", "expected the probe to be counted both when the breaker turns half-open and while it is half-open (fetch_add sites: %d, bound checks: %d)" % (len(probes), n_cmp), sb)
+        chk.fail("R26.3", sb.path, "probe-sites", "expected the probe to be counted both when the breaker turns half-open and while it is half-open (counting sites: %d, bound checks: %d)" % (len(probes), n_cmp), sb)
 
     # ---------------- R26.4
     openers = prog.callers().get(CB + "transition_to_open", [])
